@@ -156,7 +156,7 @@ mod c19 {
     }
 
     fn doc_shapes(max_lines: usize) -> Vec<Vec<String>> {
-        let atoms = ["", "word", "dash-", "two words"];
+        let atoms = ["", "word", "dash-", "two words", "*starred* text", "* bullet"];
         let mut out: Vec<Vec<String>> = vec![];
         let mut layer: Vec<Vec<String>> = vec![vec![]];
         for _ in 0..max_lines {
@@ -261,7 +261,7 @@ mod c19 {
             });
         }
         // the doc-shape family, in both comment forms
-        for shape in doc_shapes(if thorough { 4 } else { 2 }) {
+        for shape in doc_shapes(if thorough { 3 } else { 2 }) {
             for block in [false, true] {
                 let s = shape.clone();
                 fresh(&mut out, &move |d| {
